@@ -8,7 +8,8 @@ instances in both orientations, with clues on the board edges/corners and zero-v
   IDX-1  no computed (non-literal) index or slice bound is negative at any subscript (silent wrap-around)
   IDX-2  no subscript is out of range / no exception while posting the constraints
   DK     (through IDX-2 on both orientations with clues at the last row/column) height/width roles agree
-Not decided: that the posted constraints are the puzzle's published rules.
+  PZ-X   (pzx.py) for eleven puzzles with compact rules: admitted answers == rule-obeying grids on tiny instances
+Not decided: that the posted constraints are the published rules for the other solvers, and on larger boards.
 """
 
 from __future__ import annotations
@@ -121,9 +122,9 @@ def fixtures(name: str, h: int, w: int) -> List[Tuple[tuple, dict]]:
 
 
 class SolverWorld(GraphWorld):
-    def __init__(self, repo: Repo, puzzle: str):
+    def __init__(self, repo: Repo, puzzle: str, primitives: bool = False):
         self.repo = repo
-        self.config = Obj(["Config"], use_graph_primitive=False, use_graph_division_primitive=False, default_backend="z3", name="config")
+        self.config = Obj(["Config"], use_graph_primitive=primitives, use_graph_division_primitive=primitives, default_backend="z3", name="config")
         mods = [repo.mod(f) for f in FILES] + [repo.mod("cspuz/puzzle/util.py"), repo.mod(f"cspuz/puzzle/{puzzle}.py")]
         self.cw = ClassWorld(mods, pre_env={"config": self.config})
         self.cw.ev.max_steps = 3_000_000
@@ -334,6 +335,9 @@ def run(repo: Repo, rep: Report) -> None:
             if not any(r == rule for r, _, _ in items):
                 rep.ok(rule, f"{fn}: {n} non-square instances", points=n)
     rep.floor("AKR", 26)
+    from . import pzx
+
+    pzx.run(repo, rep)
     rep.info("modules outside the property's anchor list (firefly, magnets, nanro, nurimaze, slalom) are not evaluated")
     rep.assume("instances: 2x3, 3x2, 3x4, 4x3 boards with clues in all corners and on the last row/column, zero-valued clues included; "
-               "the rules themselves (what is constrained) are not compared with the published puzzle rules")
+               "for the solvers outside PZ-X the rules themselves (what is constrained) are not compared with the published puzzle rules")
